@@ -560,6 +560,24 @@ def exec_loop(ctx, st, env, cond):
                 not any(isinstance(x, (ast.Break, ast.Continue)) for b in st.body for x in ast.walk(b)):
             return exec_unrolled(ctx, st, items, env, cond)
     if getattr(ctx, "unroll_while", 0) and isinstance(st, ast.While) and not st.orelse and getattr(st, "_pmv_unroll", True) \
+            and any(isinstance(x, ast.Break) for b in st.body for x in ast.walk(b)) and _break_form(st):
+        # while c: S1; if b: break; S2   unrolled:  if c: S1; if b: pass else: S2; <next iteration>
+        def xform_w(stmts, cont):
+            for p_, s_ in enumerate(stmts):
+                if isinstance(s_, ast.If) and s_.body and isinstance(s_.body[-1], ast.Break):
+                    new = ast.If(test=s_.test, body=s_.body[:-1] or [ast.Pass()], orelse=list(s_.orelse) + xform_w(stmts[p_ + 1:], cont))
+                    ast.copy_location(new, s_)
+                    return list(stmts[:p_]) + [new]
+            return list(stmts) + cont
+        inner = [ast.Raise(exc=ast.Call(func=ast.Name(id="RuntimeError", ctx=ast.Load()), args=[ast.Constant(value="$unroll-bound")], keywords=[]),
+                           cause=None)]
+        for _ in range(ctx.unroll_while):
+            inner = [ast.If(test=st.test, body=xform_w(list(st.body), inner), orelse=[])]
+        node = inner[0]
+        ast.copy_location(node, st)
+        ast.fix_missing_locations(node)
+        return exec_stmt(ctx, node, env, cond)
+    if getattr(ctx, "unroll_while", 0) and isinstance(st, ast.While) and not st.orelse and getattr(st, "_pmv_unroll", True) \
             and not any(isinstance(x, (ast.Break, ast.Continue)) for b in st.body for x in ast.walk(b)):
         # bounded unrolling: while c: B  ==  if c: B; if c: B; ... ; beyond the bound the path raises
         inner = [ast.Raise(exc=ast.Call(func=ast.Name(id="RuntimeError", ctx=ast.Load()), args=[ast.Constant(value="$unroll-bound")], keywords=[]),
